@@ -23,6 +23,19 @@ import (
 
 const vmMaxSteps = 200000
 
+// vmStepBudget is the watchdog threshold for a case: every instruction except a zero-key
+// CHECKMULTISIG (which needs three pushes first) costs at least one unit of a potential that
+// never exceeds the limit, so a terminating run traces far fewer than 4*limit+1000 instructions.
+func vmStepBudget(limit int64) int {
+	if limit < 0 {
+		return 1000
+	}
+	if limit > (vmMaxSteps-1000)/4 {
+		return vmMaxSteps
+	}
+	return int(4*limit + 1000)
+}
+
 type vmCase struct {
 	vmVersion     uint64
 	limit         int64
@@ -181,6 +194,8 @@ func parseVMCase(line string) (*vmCase, error) {
 	return k, err
 }
 
+func u64p(v uint64) *uint64 { return &v }
+
 func sumBytes(b []byte) uint64 {
 	var s uint64
 	for _, x := range b {
@@ -287,9 +302,34 @@ type traceSink struct {
 	lastDump  [][]byte // lines of the last dump block that started with "  stack 0:"
 	sinceVM   [][]byte // dump items since the last "vm" line
 	fired     bool
+	budget    int
 	keep      *bytes.Buffer // full text when wanted
 	vmLines   []string
 	keepSteps bool
+
+	// potential tracking at depth 0 (C07 direct oracle): Φ = runLimit + Σ(8+len) over the data stack
+	track      bool
+	curStack   [][]byte // top first
+	prevPhi    int64
+	prevOp     string
+	prevValid  bool
+	prevDepth  int
+	childSeen  bool
+	phiReports []phiReport
+}
+
+type phiReport struct {
+	op    string
+	delta int64 // Φ before − Φ after the instruction (whole CHECKPREDICATE incl. child for that op)
+	child bool
+}
+
+func stackCostOf(st [][]byte) int64 {
+	var c int64
+	for _, it := range st {
+		c += 8 + int64(len(it))
+	}
+	return c
 }
 
 func (t *traceSink) Write(p []byte) (int, error) {
@@ -309,11 +349,14 @@ func (t *traceSink) Write(p []byte) (int, error) {
 		}
 		if bytes.HasPrefix(line, []byte("vm ")) {
 			t.steps++
+			if t.track {
+				t.trackVM(line)
+			}
 			t.sinceVM = nil
 			if t.keepSteps {
 				t.vmLines = append(t.vmLines, string(line))
 			}
-			if t.steps > vmMaxSteps {
+			if t.budget > 0 && t.steps > t.budget {
 				t.fired = true
 				panic("verif watchdog")
 			}
@@ -331,6 +374,35 @@ func (t *traceSink) Write(p []byte) (int, error) {
 	return len(p), nil
 }
 
+// trackVM is called for every instruction line, before sinceVM is reset.
+func (t *traceSink) trackVM(line []byte) {
+	f := strings.Fields(string(line)) // vm D pc P limit L OP [data]
+	if len(f) < 7 {
+		return
+	}
+	depth, _ := strconv.Atoi(f[1])
+	limit, _ := strconv.ParseInt(f[5], 10, 64)
+	op := f[6]
+	if depth != 0 {
+		t.childSeen = true
+		t.prevDepth = depth
+		return
+	}
+	// the previous depth-0 instruction completed: its dump (if any) is in sinceVM
+	if t.prevValid {
+		if !strings.HasPrefix(t.prevOp, "NOPx") {
+			t.curStack = t.sinceVM
+		}
+		phi := limit + stackCostOf(t.curStack)
+		t.phiReports = append(t.phiReports, phiReport{t.prevOp, t.prevPhi - phi, t.childSeen})
+	}
+	t.prevPhi = limit + stackCostOf(t.curStack)
+	t.prevOp = op
+	t.prevValid = true
+	t.childSeen = false
+	t.prevDepth = 0
+}
+
 type vmResult struct {
 	line     string
 	class    string
@@ -342,7 +414,7 @@ type vmResult struct {
 
 // runVMContext runs the real vm.Verify on an already built context.
 func runVMContext(ctx *vm.Context, limit int64, keepText bool) vmResult {
-	sink := &traceSink{hash: 14695981039346656037}
+	sink := &traceSink{hash: 14695981039346656037, budget: vmStepBudget(limit)}
 	if keepText {
 		sink.keep = &bytes.Buffer{}
 	}
